@@ -18,6 +18,7 @@
                    Projective::new assert both tests.
   Constants (COFACTOR * COFACTOR_INV, h*r, GLV): C16.
 """
+import re
 from arklib import dataflow as DF, symex as SX, numth as N
 from arklib.facts import op_local, op_place, place_parts
 from arklib.poly import Q, Poly
@@ -123,15 +124,25 @@ def group_models(helpers, scalars):
             # scalar operand: constant by name
             kk = DF.direct_const(fr.fn, t["args"][1]) if len(t["args"]) > 1 else None
             if kk is not None:
-                name = (kk.get("def") or (kk.get("pdefs") or ["?"])[0]).rsplit("::", 1)[-1]
+                if "promoted" in kk:
+                    cand = [d for d in (kk.get("pdefs") or []) if not d.startswith(("lit:", "variant:"))]
+                    name = cand[0].rsplit("::", 1)[-1] if cand else None
+                elif kk.get("def"):
+                    name = kk["def"].rsplit("::", 1)[-1]
             if name is None:
-                # value produced by a helper call (e.g. one_minus_x().into_bigint()): name it after the helper
                 l = op_local(t["args"][1]) if len(t["args"]) > 1 else None
                 if l is not None:
                     dep = DF.Dep(fr.fn)
-                    hs = [c["f"].get("name") for _, c in dep.calls_in_slice([l]) if c["f"].get("name") not in ("into_bigint", "as_ref", "deref", "borrow", "into")]
-                    if hs:
-                        name = "fn:" + hs[0]
+                    # a named configuration constant somewhere in the scalar's computation (e.g. BigInt::new([X[0], 0, 0, 0]))
+                    nc = [(kk2.get("def") or (kk2.get("pdefs") or [""])[0]).rsplit("::", 1)[-1] for kk2 in dep.consts_in_slice([l]) if (kk2.get("def") and "promoted" not in kk2) or kk2.get("pdefs")]
+                    nc = [n for n in nc if n and not n.startswith(("lit:", "variant:")) and n.isupper()]
+                    if nc:
+                        name = nc[0]
+                    else:
+                        # value produced by a helper call (e.g. one_minus_x().into_bigint()): name it after the helper
+                        hs = [c["f"].get("name") for _, c in dep.calls_in_slice([l]) if c["f"].get("name") not in ("into_bigint", "as_ref", "deref", "borrow", "into", "new")]
+                        if hs:
+                            name = "fn:" + hs[0]
             if p is None or name is None:
                 return SX.TOP
             scalars.add(name)
@@ -168,6 +179,8 @@ class FieldEval:
             for v, e in mono:
                 if v not in env:
                     raise KeyError(v)
+                if isinstance(env[v], tuple):
+                    raise ValueError("variable %s denotes an extension-field element but is used as a base-field leaf" % v)
                 term = F.mul(term, F.pow(env[v], e))
             acc = F.add(acc, term)
         return acc
@@ -205,7 +218,8 @@ def check_endo(res, facts, reg, curves):
         r = Fr.p
         scalars = set()
         md = group_models(set(helpers), scalars)
-        ex = SX.Engine(facts, fn.unit, md, max_paths=40, max_depth=3, inline_limit=0)
+        env = {rr["name"]: rr["val"] for rr in reg.recs if rr["crate"] == fn.crate and isinstance(rr["val"], bool) and not rr.get("derived_for_type")}
+        ex = SX.Engine(facts, fn.unit, md, env=env, max_paths=40, max_depth=3, inline_limit=0)
         ex.const_fields = {"infinity": False}
         pt = SX.Ref(SX.Cell(SX.Obj(name="P")))
         try:
@@ -215,9 +229,10 @@ def check_endo(res, facts, reg, curves):
             continue
         rels = []
         for p in paths:
-            if p.flags & {"cut", "diverge"} or any(f.startswith("unmodelled") for f in p.flags):
-                rels = None
-                break
+            # a path contributes when its value is well formed (unknown values poison what they flow into, so a
+            # well-formed point expression cannot depend on an unmodelled call other than scalar plumbing)
+            if p.flags & {"cut", "diverge"}:
+                continue
             if fn.name == SUBGROUP:
                 rv = p.ret
                 if isinstance(rv, SX.Cond) and rv.kind == "eq" and not rv.neg and isinstance(rv.a, Q) and isinstance(rv.b, Q):
@@ -229,6 +244,7 @@ def check_endo(res, facts, reg, curves):
                 if q is not None:
                     rels.append(("val", q))
         if not rels:
+            rels = []
             if not helpers and not scalars:
                 continue   # plain default-style override: nothing endomorphism-based to discharge
             rule.undecided(key, "could not extract a group-level relation (helpers %s)" % sorted(helpers), fn.loc)
@@ -241,6 +257,8 @@ def check_endo(res, facts, reg, curves):
             continue
         try:
             images = {n: endo_image(facts, reg, helpers[n], kind, E, F, G, owner) for n in helpers}
+            for n in images:
+                images[n](G)      # formulas must be evaluable on the generator
         except Exception as e:
             rule.undecided(key, "endomorphism formula not extracted: %s" % str(e)[:200], fn.loc)
             continue
@@ -288,6 +306,19 @@ def check_endo(res, facts, reg, curves):
                 in_sub = (E.mul(r, tot) is None) if kind == "sw" else E.is_identity(E.mul(r, tot))
                 nonzero = tot is not None if kind == "sw" else not E.is_identity(tot)
                 verdicts.append(in_sub and nonzero)
+        # documented shape of psi-based G2 clearing (Budroni-Pintore / RFC 9380 App. G.4):
+        #   h_eff * P = [x^2 - x - 1] P + [x - 1] psi(P) + psi^2(2 P)
+        if fn.name == "clear_cofactor" and {"p_power_endomorphism", "double_p_power_endomorphism"} <= set(helpers) and rels:
+            P_, psi, psi2, X = Q.var("P"), Q.var("e:p_power_endomorphism"), Q.var("e:double_p_power_endomorphism"), Q.var("k:X")
+            xneg = env.get("X_IS_NEGATIVE")
+            x = -X if xneg else X
+            want = (x * x - x - Q.const(1)) * P_ + (x - Q.const(1)) * psi * P_ + Q.const(2) * psi2 * P_
+            got = rels[0][1]
+            fkey = key + "|formula"
+            if got.equals(want):
+                rule.ok(fkey, "returned combination equals [x^2-x-1]P + [x-1]psi(P) + psi^2(2P) with x = %sX" % ("-" if xneg else "+"), fn.loc)
+            else:
+                rule.bad(fkey, "returned combination %s differs from the effective-cofactor formula [x^2-x-1]P + [x-1]psi(P) + psi^2(2P) for x = %sX (X_IS_NEGATIVE = %s)" % (str(got)[:160], "-" if xneg else "+", xneg), fn.loc)
         if any(v is None for v in verdicts):
             rule.undecided(key, "relation not linear in the point", fn.loc)
         elif all(verdicts):
@@ -309,50 +340,38 @@ def scalar_value(reg, facts, fn, name, r):
             return None
         h = cands[0]
         md = SX.ring_models()
-        ex = SX.Engine(facts, fn.unit, md, max_paths=10, max_depth=2, inline_limit=0,
-                       const_value=lambda d, k, ctx=(): None)
-        # constants named X / X_IS_NEGATIVE come from the crate's pairing config
-        xs = [rr for rr in reg.recs if rr["crate"] == fn.crate and rr["name"] == "X" and not rr.get("derived_for_type")]
-        xn = [rr for rr in reg.recs if rr["crate"] == fn.crate and rr["name"] == "X_IS_NEGATIVE"]
-        if not xs:
-            return None
-        X = N.limbs_to_int(xs[0]["val"] if isinstance(xs[0]["val"], list) else xs[0]["val"]["0"])
-        neg = bool(xn and xn[0]["val"])
-        ex.env = {"X_IS_NEGATIVE": neg}
 
-        def from_sign_and_limbs(ex2, st, fr, t, a):
-            sign = a[0]
-            if isinstance(sign, bool):
-                return Q.var("X") if sign else -Q.var("X")
-            return SX.TOP
-        md.on(SX.by(None, "from_sign_and_limbs"), from_sign_and_limbs)
-        md.on(SX.by(None, "from"), lambda ex2, st, fr, t, a: (Q.var("X") if a and not isinstance(a[0], (int, bool)) else NotImplemented))
+        def cv(d, k, ctx=()):
+            # constants of the helper (e.g. `const X: Fr = Fr::from_sign_and_limbs(..)`) by def path: numeric value
+            for rr in reg.recs:
+                if rr.get("id") == d and rr["crate"] == fn.crate:
+                    try:
+                        v = reg.decode(rr["val"], rr["ty"])
+                    except Exception:
+                        return None
+                    if isinstance(v, int):
+                        return Q.const(v)
+            return None
+        ex = SX.Engine(facts, fn.unit, md, max_paths=10, max_depth=2, inline_limit=0, const_value=cv)
         paths = ex.run(h, [])
         vals = set()
         for p in paths:
             q = SX.q_of(p.ret)
-            if q is None or not q.is_poly():
+            if q is None or not q.is_poly() or not q.n.is_const():
                 return None
-            v = 0
-            for mono, c in q.n.t.items():
-                term = c
-                for vv, e in mono:
-                    if vv != "X":
-                        return None
-                    term *= X ** e
-                v += term
-            vals.add(v)
+            vals.add(q.n.const_value() % r)
         if len(vals) != 1:
             return None
-        return vals.pop() % r
+        return vals.pop()
     rs = [rr for rr in reg.recs if rr["crate"] == fn.crate and rr["name"] == name and not rr.get("derived_for_type")]
     if not rs:
         return None
-    v = rs[0]["val"]
-    if isinstance(v, list):
-        return N.limbs_to_int(v)
-    if isinstance(v, dict) and "0" in v:
-        return N.limbs_to_int(v["0"])
+    for rr in rs:
+        v = rr["val"]
+        if isinstance(v, list) and all(isinstance(x, int) for x in v):
+            return N.limbs_to_int(v)
+        if isinstance(v, dict) and isinstance(v.get("0"), list) and all(isinstance(x, int) for x in v["0"]):
+            return N.limbs_to_int(v["0"])
     return None
 
 
@@ -379,7 +398,26 @@ def endo_image(facts, reg, helper, kind, E, F, G, owner):
         name = d.rsplit("::", 1)[-1]
         if name in ("ZERO", "ONE"):
             return None
-        rs = [rr for rr in reg.recs if rr["crate"] == helper.crate and rr["name"] == name and not rr.get("derived_for_type") and (rr.get("id") == d or True)]
+        if name == "DEGREE_OVER_BASE_PRIME_FIELD":
+            from rules.c02_towers import DEG
+            for c in [" ".join(k.get("args") or [])] + list(ctx):
+                best = None
+                for w, v in DEG.items():
+                    i = c.find(w + "<")
+                    if i >= 0 and (best is None or i < best[0]):
+                        best = (i, v)
+                if best:
+                    return best[1]
+            return None
+        cfg_owner = None
+        if d.endswith(("ExtConfig::FROBENIUS_COEFF_C1", "ExtConfig::NONRESIDUE", "Fp2Config::NONRESIDUE", "Fp2Config::FROBENIUS_COEFF_FP2_C1")):
+            # generic template constant: map to the configuration named by the instantiating wrapper
+            c = " ".join(k.get("args") or []) + " " + " ".join(ctx)
+            found = [m for m in re.findall(r"Fp2ConfigWrapper<([A-Za-z0-9_:]+)>", c) + re.findall(r"<([A-Za-z0-9_:]+) as ark_ff::fields::models::fp2::Fp2Config>", c) if "::" in m]
+            if found:
+                cfg_owner = found[0]
+                name = {"FROBENIUS_COEFF_C1": "FROBENIUS_COEFF_FP2_C1"}.get(name, name)
+        rs = [rr for rr in reg.recs if rr["crate"] == helper.crate and rr["name"] == name and not rr.get("derived_for_type") and (cfg_owner is None or rr.get("owner") == cfg_owner)]
         # prefer the record whose id matches the def path
         rs = sorted(rs, key=lambda rr: rr.get("id") != d)
         if not rs:
@@ -395,13 +433,23 @@ def endo_image(facts, reg, helper, kind, E, F, G, owner):
             o = SX.Obj(name="tab:" + name)
             for i, x in enumerate(val):
                 consts["tab:%s.%d" % (name, i)] = x
+                consts["tab:%s.deref.%d" % (name, i)] = x
             return o
         if isinstance(val, tuple) and len(val) == 2 and is_ext:
             consts[name + ".c0"], consts[name + ".c1"] = val
             return SX.Obj(adt=quad("x").adt, fields={0: SX.Obj(name=name + ".c0"), 1: SX.Obj(name=name + ".c1")})
         consts[name] = val
         return SX.Obj(name=name)
-    ex = SX.Engine(facts, helper.unit, tower_models(), max_paths=20, max_depth=8, inline_limit=300, const_value=cv)
+    md = tower_models()
+
+    def frob_leaf(ex2, st, fr, t, a):
+        d = ex2.deref(a[0])
+        if isinstance(d, SX.Obj) and (d.fields or d.adt):
+            return NotImplemented      # structured element: evaluate the real tower implementation
+        return a[0]                    # prime-field leaf: Frobenius is the identity
+    md.on(SX.by("ark_ff::fields::Field", "frobenius_map_in_place"), frob_leaf)
+    md.h.insert(0, md.h.pop())
+    ex = SX.Engine(facts, helper.unit, md, max_paths=20, max_depth=8, inline_limit=300, const_value=cv)
     paths = [p for p in ex.run(helper, [arg]) if not (p.flags & {"cut", "diverge"} or any(f.startswith("unmodelled") for f in p.flags))]
     if len(paths) != 1:
         raise ValueError("helper %s: %d evaluable paths" % (helper.name, len(paths)))
